@@ -306,6 +306,82 @@ theorem build_then_auth (O : Oracle) (now now' timeout : Int) (r key sig : Bytes
     rw [this]
 
 
+/-! ## timestamps where float64 rounds are still rejected under realistic clocks -/
+
+/-- magnitudes at or above 2^53 stay at or above 2^53 after rounding -/
+theorem roundF64_large (x : Int) (h : 2 ^ 53 ≤ x.natAbs) : 2 ^ 53 ≤ (roundF64 x).natAbs := by
+  unfold roundF64
+  have hne : x.natAbs ≠ 0 := by omega
+  have h1 : 2 ^ Nat.log2 x.natAbs ≤ x.natAbs := Nat.log2_self_le hne
+  have h2 : x.natAbs < 2 ^ (Nat.log2 x.natAbs + 1) := Nat.lt_log2_self
+  have hlog : 53 ≤ Nat.log2 x.natAbs := by
+    by_cases hc : 53 ≤ Nat.log2 x.natAbs
+    · exact hc
+    · have : Nat.log2 x.natAbs + 1 ≤ 53 := by omega
+      have := Nat.pow_le_pow_right (n := 2) (by decide) this
+      omega
+  simp only [show ¬ x.natAbs < 2 ^ 53 from by omega, if_false]
+  generalize he : Nat.log2 x.natAbs - 52 = e
+  have he1 : 1 ≤ e := by omega
+  have hpow : 2 ^ Nat.log2 x.natAbs = 2 ^ 52 * 2 ^ e := by
+    rw [← Nat.pow_add]; congr 1; omega
+  have hq : 2 ^ 52 ≤ x.natAbs / 2 ^ e := by
+    rw [Nat.le_div_iff_mul_le (Nat.pow_pos (by decide))]
+    omega
+  have h2e : 2 ≤ 2 ^ e := by
+    calc 2 = 2 ^ 1 := rfl
+      _ ≤ 2 ^ e := Nat.pow_le_pow_right (by decide) he1
+  have key : ∀ q' : Nat, x.natAbs / 2 ^ e ≤ q' → 2 ^ 53 ≤ q' * 2 ^ e := by
+    intro q' hq'
+    have : 2 ^ 52 * 2 ≤ q' * 2 ^ e := Nat.mul_le_mul (by omega) h2e
+    omega
+  have hq' : x.natAbs / 2 ^ e ≤
+      (if x.natAbs % 2 ^ e > 2 ^ (e - 1) ∨ (x.natAbs % 2 ^ e = 2 ^ (e - 1) ∧ x.natAbs / 2 ^ e % 2 = 1)
+        then x.natAbs / 2 ^ e + 1 else x.natAbs / 2 ^ e) := by
+    split <;> omega
+  have := key _ hq'
+  split <;> simp only [Int.natAbs_neg, Int.natAbs_natCast] <;> exact this
+
+theorem roundF64_nonneg (x : Int) (h : 0 ≤ x) : 0 ≤ roundF64 x := by
+  unfold roundF64
+  by_cases hs : x.natAbs < 2 ^ 53
+  · simp only [hs, if_true]; exact h
+  · simp only [hs, if_false, show ¬ x < 0 from by omega]
+    exact Int.natCast_nonneg _
+
+/-- A timestamp at or beyond 2^53 (where float64 starts rounding) is rejected as stale under any
+    realistic clock and timeout: the rounding never brings it back into the window. -/
+theorem far_future_skew (now : Int) (ts : Nat) (timeout : Int) (hn0 : 0 ≤ now) (hn : now < 2 ^ 52)
+    (hts : 2 ^ 53 ≤ ts) (ht : timeout < 2 ^ 52) : skewExceeds now ts timeout = true := by
+  unfold skewExceeds
+  have h1 : roundF64 now = now := roundF64_small now (by omega)
+  have h2 : (2 : Int) ^ 53 ≤ roundF64 (ts : Int) := by
+    have a := roundF64_large (ts : Int) (by simpa using hts)
+    have b := roundF64_nonneg (ts : Int) (Int.natCast_nonneg _)
+    omega
+  have h4 : roundF64 timeout ≤ timeout ∨ roundF64 timeout < 2 ^ 52 := by
+    by_cases hs : timeout.natAbs < 2 ^ 53
+    · left; rw [roundF64_small _ hs]; exact Int.le_refl _
+    · right
+      have hneg : timeout < 0 := by omega
+      unfold roundF64
+      simp only [hs, if_false, hneg, if_true]
+      have := Int.natCast_nonneg ((if timeout.natAbs % 2 ^ (Nat.log2 timeout.natAbs - 52) > 2 ^ (Nat.log2 timeout.natAbs - 52 - 1) ∨
+        (timeout.natAbs % 2 ^ (Nat.log2 timeout.natAbs - 52) = 2 ^ (Nat.log2 timeout.natAbs - 52 - 1) ∧
+          timeout.natAbs / 2 ^ (Nat.log2 timeout.natAbs - 52) % 2 = 1) then timeout.natAbs / 2 ^ (Nat.log2 timeout.natAbs - 52) + 1
+        else timeout.natAbs / 2 ^ (Nat.log2 timeout.natAbs - 52)) * 2 ^ (Nat.log2 timeout.natAbs - 52))
+      omega
+  have h5 : roundF64 timeout < 2 ^ 52 := by omega
+  rw [h1]
+  have hd : (2 : Int) ^ 52 < ((now - roundF64 (ts : Int)).natAbs : Int) := by omega
+  have h6 : (2 : Int) ^ 52 < ((roundF64 (now - roundF64 (ts : Int))).natAbs : Int) := by
+    by_cases hs : (now - roundF64 (ts : Int)).natAbs < 2 ^ 53
+    · rw [roundF64_small _ hs]; exact hd
+    · have := roundF64_large (now - roundF64 (ts : Int)) (by omega)
+      omega
+  simp only [gt_iff_lt, decide_eq_true_eq]
+  omega
+
 /-! ## beyond 2^53 the float comparison is *not* the integer one (documented, harmless: the
 timestamp would be 285 million years ahead) -/
 
